@@ -1660,6 +1660,96 @@ func (w *e2World) evRace(rd *e2Round) bool {
 	return w.deliver(sv, ov)
 }
 
+// evBurst generalises evRace to the other inputs of the state machine's select: while the
+// kernel is busy with a no-op view, two or three of {a step timer elapses, the driver's
+// finalization response arrives, the height-committed signal closes, a view update that may
+// cross a threshold is offered} are made ready together, so that Go's select picks their
+// order. Whatever the order, every rule of C08/C12 must hold and nothing may panic.
+func (w *e2World) evBurst(rd *e2Round) bool {
+	if len(w.holds) > 0 {
+		return true
+	}
+	in := w.inst
+	var tm *e2Timer
+	if ts := w.rt.outstanding(in.n); len(ts) > 0 && w.rng.IntN(4) != 0 {
+		tm = ts[w.rng.IntN(len(ts))]
+		if tm.kind == "proposal" {
+			if !w.gateChoose() {
+				return false
+			}
+		}
+	}
+	var view *tmconsensus.VersionedRoundView
+	var ov *e2View
+	if w.rng.IntN(3) != 0 {
+		w.syncOwn(rd)
+		for i, n := 0, 1+w.rng.IntN(3); i < n; i++ {
+			switch x := w.rng.IntN(10); {
+			case x < 2:
+				w.mutPH(rd)
+			case x < 6:
+				w.mutVotes(rd, false, 1+w.rng.IntN(w.cfg.nVals))
+			default:
+				w.mutVotes(rd, true, 1+w.rng.IntN(w.cfg.nVals))
+			}
+		}
+		v, o := w.buildVRV(rd, "update")
+		view, ov = &v, o
+	}
+	if !w.noops(1) {
+		return false
+	}
+	if cur := in.cur; w.inst != in || cur.H != rd.h || cur.R != rd.r {
+		// the prepared view was never offered; the round's version counter moved on, which a
+		// later view of that round only makes look newer
+		w.count("burst.abandoned-machine-had-moved-on")
+		return true
+	}
+	acts := []string{}
+	if tm != nil && tm.h == rd.h && tm.r == rd.r {
+		acts = append(acts, "timer")
+	}
+	for _, q := range w.finreqs {
+		if !q.done && q.inst == in.n {
+			acts = append(acts, "finresp")
+			break
+		}
+	}
+	if in.hc != nil && (rd.quorumAccepted || w.rng.IntN(8) == 0) {
+		acts = append(acts, "hcommitted")
+	}
+	w.rng.Shuffle(len(acts), func(i, j int) { acts[i], acts[j] = acts[j], acts[i] })
+	n := 0
+	for _, a := range acts {
+		if n >= 2 && w.rng.IntN(2) == 0 {
+			break
+		}
+		switch a {
+		case "timer":
+			if w.rt.fire(tm.id) {
+				w.count("burst.timer." + tm.kind)
+				n++
+			}
+		case "finresp":
+			if !w.evFinResp() {
+				return false
+			}
+			w.count("burst.finresp")
+			n++
+		case "hcommitted":
+			w.evHeightCommitted(rd)
+			w.count("burst.hcommitted")
+			n++
+		}
+	}
+	if view != nil {
+		w.count(fmt.Sprintf("burst.view-with-%d-other-inputs", n))
+		return w.deliver(tmeil.StateMachineRoundView{VRV: *view}, ov)
+	}
+	w.count(fmt.Sprintf("burst.%d-inputs", n))
+	return true
+}
+
 // evOtherRound delivers a view for a round the machine is not in, with content
 // that would matter if it were taken for the current round.
 func (w *e2World) evOtherRound(rd *e2Round) bool {
@@ -1925,6 +2015,9 @@ func (w *e2World) step() bool {
 	if len(timers) > 0 && len(w.holds) == 0 {
 		cs = append(cs, choice{"race", 4})
 	}
+	if len(w.holds) == 0 && !w.cfg.planned && (len(timers) > 0 || pendingFin || in.hc != nil) {
+		cs = append(cs, choice{"burst", 6})
+	}
 	if w.cfg.blockData {
 		cs = append(cs, choice{"blockdata", 5})
 	}
@@ -1953,6 +2046,8 @@ func (w *e2World) step() bool {
 		ok = w.evHeightCommitted(rd)
 	case "race":
 		ok = w.evRace(rd)
+	case "burst":
+		ok = w.evBurst(rd)
 	case "jump":
 		ok = w.evJump(rd)
 	case "other":
